@@ -38,6 +38,7 @@ def register(R):
 
   R.add(Contract(
       f'{ITER}::iter_ignore_error', P, variant='with-marker',
+      when=lambda it, a, k: (len(a) > 1 and not isinstance(a[1], VNoneT)) or ('error_return' in k and not isinstance(k['error_return'], VNoneT)),
       types=dict(it='iter[obj]', error_return='obj'), yields='obj', setup=_setup_iter, modifies=['it'],
       # with a marker every source position produces exactly one output: the element
       # itself or the marker - nothing after a failing element is lost, order and
@@ -54,6 +55,7 @@ def register(R):
       bounded='bounded_ignore_error'))
   R.add(Contract(
       f'{ITER}::iter_ignore_error', P, variant='no-marker',
+      when=lambda it, a, k: not ((len(a) > 1 and not isinstance(a[1], VNoneT)) or ('error_return' in k and not isinstance(k['error_return'], VNoneT))),
       types=dict(it='iter[obj]', error_return='none'), yields='obj', setup=_setup_iter, modifies=['it'],
       # without a marker the output is exactly the non-failing elements, in order, each once
       ensures=['len(out) == rank(len(it.src)) - rank(pos0)',
@@ -65,6 +67,86 @@ def register(R):
           'forall(lambda i: rank(i) + ite(fails(it, i), 0, 1) <= rank(it.pos) and rank(pos0) <= rank(i), pos0, it.pos)',
           'forall(lambda i: implies(not fails(it, i), out[rank(i) - rank(pos0)] is it.src[i]), pos0, it.pos)'])},
       bounded='bounded_ignore_error'))
+  # ---- map_ignore_error: the mapped values of exactly the elements on which neither the source nor the function fails ----
+  from pyvc.builtins_ import fn_raises, opaque_fn
+
+  def _setup_map(it, env):
+    src_it = env['it']
+    src_it.resumable = True
+    src_it.err = 'ValueError'
+    i = z3.Int(it.path.fresh_name('i'))
+    f = it.fn_symbol(env['fn'])
+    skipped = z3.Or(z3.Select(src_it.fails, i), fn_raises(f, z3.Select(src_it.src.arr, i)))
+    # definition of the ghost counting function: positions before i that are neither unreadable nor rejected by fn
+    it.assume(z3.ForAll([i], rank_fn(i + 1) == rank_fn(i) + z3.If(skipped, 0, 1)))
+    it.ghost['pos0'] = VInt(src_it.pos)
+
+  @R.spec
+  def skipped(it, a, k):
+    '''the source fails at position i or fn raises on that element'''
+    f, src_it, i = it.fn_symbol(a[0]), a[1], it.to_int(a[2])
+    bad = fn_raises(f, z3.Select(src_it.src.arr, i))
+    return VBool(z3.Or(z3.Select(src_it.fails, i), bad) if src_it.fails is not None else bad)
+
+  @R.spec
+  def mapped(it, a, k):
+    return VOpaque(opaque_fn(1)(it.fn_symbol(a[0]), it.to_obj(a[1])))
+
+  @R.spec
+  def raises_on(it, a, k):
+    return VBool(fn_raises(it.fn_symbol(a[0]), it.to_obj(a[1])))
+
+  @R.spec
+  def never_fails(it, a, k):
+    '''the iterator never raises anything but StopIteration'''
+    v = a[0]
+    if v.fails is None:
+      return VBool(True)
+    i = z3.Int(it.path.fresh_name('i'))
+    return VBool(z3.ForAll([i], z3.Not(z3.Select(v.fails, i))))
+
+  R.add(Contract(
+      f'{ITER}::map_ignore_error', P, types=dict(fn='obj', it='iter[obj]'), ret='iter[obj]', setup=_setup_map, modifies=['it'],
+      ensures=['len(result.src) == rank(len(it.src)) - rank(pos0)', 'result.pos == 0', 'never_fails(result)',
+               'forall(lambda i: implies(not skipped(fn, it, i), result.src[rank(i) - rank(pos0)] is mapped(fn, it.src[i])), pos0, len(it.src))'],
+      bounded='bounded_ignore_error',
+      note='fn(x) for exactly the elements x that can be read and on which fn does not raise, in order, each once; nothing after a failing element is lost'))
+
+  # ---- TreeFn._iterate (no re-batching): where the error guard sits ---------------------------------------------------
+  TF = 'ml_metrics/_src/chainables/tree_fns.py'
+  R.cls('TreeFn', dict(fn_batch_size='int', batch_size='int', ignore_error='bool', _num_inputs='int', _num_outputs='int'))
+  G, Cf, N = 'self._get_inputs', 'self._maybe_call_fn', 'self._normalize_outputs'
+  VALUE = f'mapped({N}, mapped({Cf}, mapped({G}, input_iterator.src[i])))'
+
+  def _setup_iterate(it, env):
+    src_it, slf = env['input_iterator'], env['self']
+    src_it.resumable = True
+    src_it.err = 'ValueError'
+    g, c = (it.fn_symbol(it.getattr_(slf, n)) for n in ('_get_inputs', '_maybe_call_fn'))
+    i = z3.Int(it.path.fresh_name('i'))
+    x = z3.Select(src_it.src.arr, i)
+    skipped = z3.Or(z3.Or(z3.Select(src_it.fails, i), fn_raises(g, x)), fn_raises(c, opaque_fn(1)(g, x)))
+    it.assume(z3.ForAll([i], rank_fn(i + 1) == rank_fn(i) + z3.If(skipped, 0, 1)))
+    it.ghost['pos0'] = VInt(src_it.pos)
+
+  SKIP = f'(fails(input_iterator, i) or raises_on({G}, input_iterator.src[i]) or raises_on({Cf}, mapped({G}, input_iterator.src[i])))'
+  R.add(Contract(
+      f'{TF}::TreeFn._iterate', P, variant='skipping', types=dict(self='TreeFn', input_iterator='iter[obj]', ignore_error='const:True'), ret='iter[obj]',
+      setup=_setup_iterate, requires=['self.fn_batch_size == 0', 'self.batch_size == 0'], modifies=['input_iterator'],
+      # with error skipping: the outputs of exactly the records that can be read, selected and computed, in order, each once;
+      # a failing record is dropped alone - nothing after it is lost
+      ensures=['len(result.src) == rank(len(input_iterator.src)) - rank(pos0)',
+               f'forall(lambda i: implies(not {SKIP}, result.src[rank(i) - rank(pos0)] is {VALUE}), pos0, len(input_iterator.src))'],
+      bounded='bounded_pipeline_skip'))
+  R.add(Contract(
+      f'{TF}::TreeFn._iterate', P, variant='not-skipping', types=dict(self='TreeFn', input_iterator='iter[obj]', ignore_error='const:False'), ret='iter[obj]',
+      setup=_setup_iterate, requires=['self.fn_batch_size == 0', 'self.batch_size == 0'], modifies=[],
+      # without error skipping: one output per record, aligned; an error at a record surfaces AT that record, it is never swallowed
+      ensures=['len(result.src) == len(input_iterator.src)', 'result.pos == input_iterator.pos',
+               f'forall(lambda i: result.src[i] is {VALUE}, 0, len(input_iterator.src))',
+               f'forall(lambda i: implies({SKIP}, fails(result, i)), 0, len(input_iterator.src))'],
+      bounded='bounded_pipeline_skip'))
+
   # (_RangeIterator.__next__ is registered by the C09 contracts for both properties)
 
   R.bounded_checks[P] = [
@@ -72,5 +154,6 @@ def register(R):
       ('bounded_range_iterator_faults', '_RangeIterator with failing elements, sliceable and not, every read-ahead'),
       ('bounded_pipeline_skip', 'apply/assign/filter/sink pipelines with failing elements, error skipping on/off, (re)batching, num_threads 0/1'),
   ]
-  R.trusted[P] = ['A4 sequential semantics', 'A6 the source iterator is finite; a failing element raises a skippable error (ValueError/TypeError) and the iterator is resumable',
+  R.trusted[P] = ['A6 mapped callables / bound methods (_get_inputs, _maybe_call_fn, _normalize_outputs) are deterministic functions of their argument that may raise; map objects resume after a failure; generators are described by a whole run',
+                  'A4 sequential semantics', 'A6 the source iterator is finite; a failing element raises a skippable error (ValueError/TypeError) and the iterator is resumable',
                   'A7 pyvc engine, z3, cvc5']
